@@ -60,6 +60,7 @@ def check_c13(prog, rep, tier, cfg):
     c13g(prog, rep)
     c13h(prog, rep)
     c13i(prog, rep)
+    c13j(prog, rep)
 
 
 def c13g(prog, rep):
@@ -215,6 +216,44 @@ def c13h(prog, rep):
               "text_literal can call a literal complete (TextLiteral(SingleLine)) on a path on which no segment scanner has answered `Stop`: escapes or quoted segments that follow "
               "directly (an empty literal followed by #13#10) are cut off into a token of their own", where="%s:%d" % (b.file, b.line),
               instance={"segment_scanners": sorted(scanners), "stop_arms": len(stops), "completions": len(done)})
+
+
+def c13j(prog, rep, R="C13.j"):
+    """C13.j — a multi-line literal (`'''` .. `'''`) is a token of its own that ends with its closing quotes: once text_literal has decided
+    that the literal is of kind MultiLine, none of the segment scanners of single-line literals (`#` escapes, further quoted segments)
+    runs any more.  The string formatter relies on it (the last line of the token is blanks and quotes, otherwise the literal is left
+    alone): `'''#13#10` taken as one token is never re-indented, while the wrapper still moves its opening quotes."""
+    from util import family_bodies
+    b = prog.body(LX + "text_literal")
+    if not rep.check(b is not None, R, "anchor:text_literal", "text_literal not found"):
+        return
+
+    def builds_multiline(x):
+        out = []
+        for bb, i, st in x.stmts():
+            if st["k"] != "assign":
+                continue
+            rv = st["rv"]
+            if rv["k"] == "aggregate" and rv.get("variant") == "MultiLine" and norm(rv.get("adt", "")).endswith("TextLiteralKind"):
+                out.append(bb)
+            elif any(op.get("enum_variant") == "MultiLine" for op in _rv_ops_all(rv)):
+                out.append(bb)
+        return out
+    sites = set(builds_multiline(b))
+    scanners = set()
+    for body, anchor, _chain in family_bodies(prog, b, depth=2):
+        if body is b:
+            continue
+        if anchor is not None and builds_multiline(body) and "::consume_" not in body.npath:
+            sites.add(anchor)
+    scan_calls = {c.bb for c in b.calls() if "::consume_" in norm(c.t.get("resolved") or c.callee or "") and norm(c.t.get("resolved") or c.callee or "").startswith(b.npath)}
+    if not rep.check(bool(sites), R, "anchor:MultiLine", "text_literal no longer builds TextLiteral(MultiLine)"):
+        return
+    late = sorted(s0 for s0 in sites if b.reach_from(s0, include_start=False) & scan_calls)
+    rep.check(not late, R, "multi-line-literal-ends-with-its-closing-quotes",
+              "after text_literal has decided that a literal is of kind MultiLine it can still run a segment scanner of single-line literals: `#` escapes or quoted segments written directly "
+              "behind the closing quotes become part of the token, its last line is no longer blanks and quotes, and the string formatter leaves the literal's indentation alone",
+              where="%s:%d" % (b.file, b.line), instance={"decision_points": len(sites), "segment_scanner_calls": len(scan_calls)})
 
 
 def c13a(prog, rep):
